@@ -63,6 +63,8 @@ func raceLine(msg string) string {
 	out := "race: " + strings.Join(fr, " vs ")
 	if shutdownBesideDrawing(msg) {
 		out = "race: shutdown-beside-drawing"
+	} else if resumeBesideQuery(msg) {
+		out = "race: resume-beside-query"
 	}
 	b := []byte(out)
 	for i := range b {
@@ -159,11 +161,9 @@ func runChildren[T any](child, dir string, list []*T, died func(i int, msg strin
 	return out
 }
 
-// shutdownBesideDrawing recognises one family of reports: one access is made on the library's shutdown
-// path (Vaxis.close, which the signal handler's goroutine runs too), the other by the application's
-// goroutine inside Render, ShowCursor or HideCursor. The two stacks are the blocks that follow the
+// raceStacks returns the two stacks of a race report: the blocks that follow the
 // "... at 0x... by goroutine" headers.
-func shutdownBesideDrawing(msg string) bool {
+func raceStacks(msg string) []string {
 	var blocks []string
 	cur := -1
 	for _, l := range strings.Split(msg, "\n") {
@@ -178,6 +178,14 @@ func shutdownBesideDrawing(msg string) bool {
 			blocks[cur] += t + "\n"
 		}
 	}
+	return blocks
+}
+
+// shutdownBesideDrawing recognises one family of reports: one access is made on the library's shutdown
+// path (Vaxis.close, which the signal handler's goroutine runs too), the other by the application's
+// goroutine inside Render, ShowCursor or HideCursor.
+func shutdownBesideDrawing(msg string) bool {
+	blocks := raceStacks(msg)
 	if len(blocks) != 2 {
 		return false
 	}
@@ -187,4 +195,31 @@ func shutdownBesideDrawing(msg string) bool {
 			strings.Contains(b, "vaxis.(*Vaxis).HideCursor()"))
 	}
 	return closing(blocks[0]) && drawing(blocks[1]) || closing(blocks[1]) && drawing(blocks[0])
+}
+
+// resumeBesideQuery recognises a second family: one access is made by Resume while it installs the
+// console, writer and parser (Vaxis.openTty called from Vaxis.Resume), the other by another goroutine
+// inside one of the calls that talk to the terminal directly (queries, clipboard, title, bell). Which of
+// those calls it is depends on the schedule; the family gets one signature.
+func resumeBesideQuery(msg string) bool {
+	blocks := raceStacks(msg)
+	if len(blocks) != 2 {
+		return false
+	}
+	resuming := func(b string) bool {
+		return strings.Contains(b, "vaxis.(*Vaxis).openTty()") && strings.Contains(b, "vaxis.(*Vaxis).Resume()")
+	}
+	asking := func(b string) bool {
+		if resuming(b) {
+			return false
+		}
+		for _, f := range []string{"CursorPosition", "QueryColor", "QueryForeground", "QueryBackground", "ClipboardPop", "ClipboardPush",
+			"Notify", "SetTitle", "SetAppID", "Bell"} {
+			if strings.Contains(b, "vaxis.(*Vaxis)."+f+"()") {
+				return true
+			}
+		}
+		return false
+	}
+	return resuming(blocks[0]) && asking(blocks[1]) || resuming(blocks[1]) && asking(blocks[0])
 }
